@@ -211,10 +211,13 @@ class Check:
         if not ok:
             log("obligation FAILED:", name, str(detail)[:2000])
 
-    def lean_obligations(self, theorems, imports=None):
+    def lean_obligations(self, theorems, imports=None, targets=None):
+        """Builds only what this property needs (its Props module, extra targets, the driver), so
+        that a broken module of another property cannot mask this one."""
         imports = imports or ("Cog.Props.%s" % self.pid,)
-        ok, out = lake_build()
-        self.oblige("lake build Cog drv", ok, out[-3000:] if not ok else "")
+        targets = tuple(targets) if targets else tuple(imports) + ("drv",)
+        ok, out = lake_build(targets)
+        self.oblige("lake build " + " ".join(targets), ok, out[-3000:] if not ok else "")
         hits = forbidden_scan()
         self.oblige("no sorry/admit/axiom/native_decide/bv_decide/implemented_by/unsafe in lean sources", not hits, hits[:10])
         if not ok:
